@@ -2,3 +2,7 @@ import Gittuf.Props.C01
 #print axioms Gittuf.World.C01_tip_full
 #print axioms Gittuf.World.C01_tip_latest
 #print axioms Gittuf.World.C01_no_entry
+#print axioms Gittuf.World.F1_witness
+#print axioms Gittuf.World.F2_witness
+#print axioms Gittuf.World.F3_witness
+#print axioms Gittuf.World.good_history_verifies
